@@ -24,6 +24,8 @@ pub struct Frame {
 #[derive(Clone, PartialEq, Eq, Hash, Debug)]
 pub struct St {
     stack: Vec<Frame>,
+    /// an assembled `.exit` ended the file: nothing after it is looked at
+    exited: bool,
 }
 
 #[derive(Clone, Copy, PartialEq, Eq, Hash, Debug, PartialOrd, Ord)]
@@ -47,6 +49,8 @@ pub enum Act {
     Elif(Cond, bool),
     Else,
     Endif,
+    /// `.exit`: ends the file where it is assembled (open conditionals included), nothing where it is skipped
+    Exit,
 }
 
 #[derive(Clone)]
@@ -55,17 +59,23 @@ pub struct CondModel {
 }
 
 fn assembling(s: &St) -> bool {
-    s.stack.last().map(|f| f.active).unwrap_or(true)
+    !s.exited && s.stack.last().map(|f| f.active).unwrap_or(true)
 }
 
 impl RefModel for CondModel {
     type State = St;
     type Action = Act;
     fn init(&self) -> St {
-        St { stack: vec![] }
+        St { stack: vec![], exited: false }
     }
     fn actions(&self, s: &St) -> Vec<Act> {
         let mut v = vec![];
+        if s.exited {
+            return v;
+        }
+        if !s.stack.is_empty() {
+            v.push(Act::Exit);
+        }
         if s.stack.len() < self.max_nest {
             for c in [Cond::Lit, Cond::Equ, Cond::IfDef, Cond::IfNDef, Cond::HashIfDef, Cond::HashIfNDef, Cond::HashIf, Cond::Value] {
                 v.push(Act::If(c, true));
@@ -111,6 +121,11 @@ impl RefModel for CondModel {
             }
             Act::Endif => {
                 n.stack.pop()?;
+            }
+            Act::Exit => {
+                if assembling(s) {
+                    n.exited = true;
+                }
             }
         }
         Some(n)
@@ -170,7 +185,10 @@ fn cond_text(c: Cond, truth: bool, elif: bool, hash: bool, salt: usize) -> Strin
 /// trailing comments on directive lines: a comment is a comment, whatever it contains and
 /// whether or not a blank separates it from the directive
 fn decorate(line: String, salt: usize) -> String {
-    match salt % 7 {
+    match salt % 9 {
+        // a label in front of the directive (unique per line: the salt includes the position)
+        7 => format!("dl_{}: {}", salt, line),
+        8 => format!("dl_{}:{} ; labelled", salt, line),
         0 | 1 => line,
         2 => format!("{} ; note: with a colon", line),
         3 => format!("{};glued", line),
@@ -223,7 +241,7 @@ impl CondModel {
         };
         // the rotation of unselected payload kinds is shifted by a hash of the trace so that all
         // kinds meet all structures across the enumeration
-        let salt = trace.iter().fold(7usize, |h, a| h.wrapping_mul(31).wrapping_add(match a { Act::If(c, t) => *c as usize * 2 + *t as usize, Act::Elif(c, t) => 20 + *c as usize * 2 + *t as usize, Act::Else => 40, Act::Endif => 41 }));
+        let salt = trace.iter().fold(7usize, |h, a| h.wrapping_mul(31).wrapping_add(match a { Act::If(c, t) => *c as usize * 2 + *t as usize, Act::Elif(c, t) => 20 + *c as usize * 2 + *t as usize, Act::Else => 40, Act::Endif => 41, Act::Exit => 42 }));
         payload(&s, &mut program, &mut flattened, &mut code, &mut markers, salt);
         let mut all: Vec<Act> = trace.to_vec();
         // close open frames at the end of the trace
@@ -290,6 +308,11 @@ impl CondModel {
                     program.push_str(&decorate(if hash { "#endif".to_string() } else { ".endif".to_string() }, salt / 7 + i));
                     program.push('\n');
                 }
+                Act::Exit => {
+                    features.insert(if assembling(&s) { "exit-assembled-inside-conditional" } else { "exit-skipped" });
+                    program.push_str(&decorate(".exit".to_string(), salt / 7 + i));
+                    program.push('\n');
+                }
             }
             s = self.step(&s, a).unwrap();
             let keep = match density {
@@ -352,6 +375,7 @@ pub fn run(tier: Tier) -> i32 {
                 Act::Elif(c, _) => format!("elif-{:?}", c),
                 Act::Else => "else".to_string(),
                 Act::Endif => "endif".to_string(),
+                Act::Exit => "exit".to_string(),
             };
             *act_use.lock().unwrap().entry(name).or_insert(0) += 1;
         }
